@@ -55,7 +55,7 @@ theorem describeInv_step (w : World) (s : BState) (op : Op) (h : DescribeInv w s
       intro hb ro hro
       rw [kb.2.2.2] at hb; rw [kb.2.1] at hro
       exact pers ro (h.2 hb ro hro)
-    · cases op <;> simp [Op.touchesBundle] at ht
+    · cases op <;> simp [Op.touchesBundle, KeepsBundle.touches] at ht
       · -- create
         rename_i n
         simp only [step]
@@ -113,6 +113,6 @@ theorem describeInv_step (w : World) (s : BState) (op : Op) (h : DescribeInv w s
             exact pers ro (h.2 hb0 ro hro)
       · intro hb; simp only [step] at hb; rw [save_not_bundling] at hb; cases hb
       · intro hb; simp only [step] at hb; rw [drop_not_bundling] at hb; cases hb
-      · intro hb; simp only [step, Res.pure_st] at hb; rw [rewindOp_not_bundling] at hb; cases hb
+      · intro hb; simp only [step, Res.ok_st] at hb; rw [rewindOp_not_bundling] at hb; cases hb
 
 end BlueskyVerif.Bundler
